@@ -166,6 +166,9 @@ def run(ctx, case):
                 d.process(ch, flush=True)
             else:
                 d.process(ch)
+            if not last:
+                # streaming use: the bookkeeping is queried after every chunk, not only at the end
+                _check_chunks(ctx, d, chunks[:j + 1])
         o = C.observe(d)
         ctx.claim(eq_struct(o, o_whole), "split.outputs", (cut, o, o_whole))
         ctx.claim(eq_struct(C.full_state(d), s_whole), "split.state", cut)
